@@ -459,6 +459,12 @@ fn worker(args: WorkerArgs) {
                     idx = oi;
                 }
                 while idx < sweep.count {
+                    // Once a worker has established thousands of violations more of the same add
+                    // nothing: the rest of its share is skipped (reported by the driver).
+                    if COUNTERS[register("violations")].load(Ordering::Relaxed) > 3000 {
+                        bump_named("cut_short_after_3000_violations", 1);
+                        break;
+                    }
                     CUR_CASE.store(idx, Ordering::Relaxed);
                     CASE_SERIAL.fetch_add(1, Ordering::Relaxed);
                     let r = catch_unwind(AssertUnwindSafe(|| (sweep.run)(idx)));
@@ -507,8 +513,12 @@ pub fn panic_message(e: &Box<dyn std::any::Any + Send>) -> String {
 // Driver.
 // ------------------------------------------------------------------------------------------------
 
+static ABNORMAL_TOTAL: AtomicUsize = AtomicUsize::new(0);
+const ABNORMAL_BUDGET: usize = 48;
+
 #[derive(Default)]
 struct Merged {
+    cut_short: bool,
     counters: BTreeMap<String, u64>,
     violations: Vec<Value>,
     known_examples: BTreeMap<String, Value>,
@@ -677,6 +687,13 @@ fn driver(prop_id: &str, tier: Tier, seed: u64) -> i32 {
                 match abnormal {
                     Some((s, i, _)) if s != usize::MAX && i != u64::MAX => {
                         restarts += 1;
+                        // Abnormal endings come in clusters; beyond a budget the run is cut short (what
+                        // was found is reported, the cut is a machinery note, the exit code stays a
+                        // verdict only if a violation was established).
+                        if ABNORMAL_TOTAL.fetch_add(1, Ordering::Relaxed) >= ABNORMAL_BUDGET {
+                            merged.lock().unwrap().cut_short = true;
+                            break;
+                        }
                         if restarts > 5000 {
                             merged.lock().unwrap().machinery.push(format!(
                                 "shard {shard}: more than 5000 abnormal endings; giving up"
@@ -837,8 +854,17 @@ fn finish(prop: &dyn Prop, tier: Tier, seed: u64, mut m: Merged, start: Instant)
         println!("{nviol} violation(s) in total");
     }
 
+    if m.cut_short {
+        println!("NOTE: more than {ABNORMAL_BUDGET} abnormal endings (aborts / watchdog expiries); the exploration was cut short");
+        if nviol == 0 {
+            m.machinery.push("exploration cut short by abnormal endings without an established violation".to_owned());
+        }
+    }
     // Machinery failures (never verdicts).
     for (c, min) in &spec.minimums {
+        if m.cut_short {
+            break;
+        }
         if get(&m, c) < *min {
             m.machinery.push(format!("vacuity guard: counter {c} = {} < {min}", get(&m, c)));
         }
